@@ -161,7 +161,9 @@ def gen_wiring_case(rng):
     for _ in range(n):
         r = rng.below(14)
         if r == 0:
-            kids.append(dict(tag=rng.choice(['rect', 'g', 'feMergeNode', 'feFuncR']), known=False, ok=True, ins=[], result=None))
+            # a child that collect_children skips; it may carry a `result` (which must NOT become a known name)
+            kids.append(dict(tag=rng.choice(['rect', 'g', 'feMergeNode', 'feFuncR', 'feDistantLight', 'fePointLight', 'feSpotLight']), known=False, ok=True, ins=[],
+                             result=rng.choice(NAMES[:8] + ['stray']) if rng.below(3) else None))
             continue
         tag, nin = rng.choice(PRIMS)
         ok = rng.below(16) != 0
@@ -541,6 +543,18 @@ def run(ctx):
                    dict(tag='feOffset', known=True, ok=True, ins=['result3'], result=None),
                    dict(tag='feOffset', known=True, ok=True, ins=['result3'], result='result3'),
                    dict(tag='feMerge', known=True, ok=True, ins=['result1', 'result2', 'result3', 'result4', 'nope'], result=None)])
+    # children that collect_children skips (light source / transfer function / merge node / g directly inside <filter>, a primitive with an
+    # empty region) but that carry a `result`: a later `in` naming it refers to NO primitive
+    for tag in ('feDistantLight', 'feFuncR', 'feMergeNode', 'g'):
+        wcases.append([dict(tag='feFlood', known=True, ok=True, ins=[], result='fl'),
+                       dict(tag=tag, known=False, ok=True, ins=[], result='stray'),
+                       dict(tag='feOffset', known=True, ok=True, ins=['stray'], result='o'),
+                       dict(tag='feBlend', known=True, ok=True, ins=['fl', 'stray'], result=None)])
+        wcases.append([dict(tag=tag, known=False, ok=True, ins=[], result='stray'),
+                       dict(tag='feMerge', known=True, ok=True, ins=['stray', None], result=None)])
+    wcases.append([dict(tag='feFlood', known=True, ok=False, ins=[], result='zero'),
+                   dict(tag='feOffset', known=True, ok=True, ins=['zero'], result=None),
+                   dict(tag='feOffset', known=True, ok=True, ins=['zero'], result=None)])
     wdocs = [wiring_doc(c) for c in wcases]
     wouts = ctx.rvh_batch(binp, 'dump', ["-\t" + d for d in wdocs])
     it = treeref.Intern()
